@@ -12,3 +12,7 @@ def run_proofs(ctx):
     run_contracts(ctx, cs, reg, workloads=c13.workloads(), concrete_env=c13.CONCRETE_ENV)
     reg2, cs2 = c09.build()
     run_contracts(ctx, cs2, reg2, workloads=c09.workloads(), concrete_env=c09.CONCRETE_ENV)
+    from vf.proofs import c02
+
+    reg3, cs3 = c02.build()
+    run_contracts(ctx, cs3, reg3, workloads=c02.workloads(), concrete_env=c02.CONCRETE_ENV)
